@@ -284,7 +284,9 @@ func Cache(ctx context.Context, key interface{}, f ComputeFunc) (interface{}, er
 		verifhook.At("reactive.cache.lockerr", cache, key)
 		return nil, err
 	}
+	verifhook.At("reactive.cache.locked", cache, key)
 	defer cache.locker.Unlock(key)
+	defer verifhook.At("reactive.cache.unlock", cache, key)
 
 	if child := cache.get(key); child != nil {
 		child.node.addOut(&computation.node)
